@@ -2,6 +2,7 @@ package rules
 
 import (
 	"fmt"
+	"go/token"
 	"go/types"
 	"sort"
 
@@ -12,10 +13,11 @@ import (
 
 // Root is a request-handling entry point discovered from the program itself.
 type Root struct {
-	Kind  string // http sasl ldap
-	Name  string
-	Fn    *ssa.Function
-	Route string
+	Kind     string // http sasl ldap
+	Name     string
+	Fn       *ssa.Function
+	Route    string   // http: the pattern(s) the handler is registered under (route table, webroutes.go)
+	Wrappers []string // http: the layers between the registration and the handler, outermost first
 }
 
 // frontendRoots discovers: the functions stored into webHandler.H literals (HTTP), the closures handed to
@@ -90,6 +92,22 @@ func frontendRoots(p *an.Prog) []Root {
 			}
 		}
 	}
+	// which route each HTTP handler serves, and behind which wrappers (the handlers themselves are found from what is
+	// stored into webHandler.H — through route helpers and factories —, so a wrapper around the registered value does
+	// not hide them; the wrappers are judged by C11.5)
+	for _, rt := range webRoutes(p) {
+		for _, hf := range rt.Handlers {
+			for i := range out {
+				if out[i].Kind == "http" && out[i].Fn == hf {
+					if out[i].Route != "" {
+						out[i].Route += ","
+					}
+					out[i].Route += rt.Pattern
+					out[i].Wrappers = append(out[i].Wrappers, rt.layerNames()...)
+				}
+			}
+		}
+	}
 	sort.Slice(out, func(i, j int) bool { return out[i].Name < out[j].Name })
 	return out
 }
@@ -149,6 +167,45 @@ func funcValues(p *an.Prog, v ssa.Value, depth int) []*ssa.Function {
 			out = append(out, fs...)
 		}
 		return out
+	case *ssa.Parameter:
+		// the parameter of a route helper / factory (api(h) → webHandler{…, h}): what every call site passes
+		vals := paramArgs(p, x)
+		if len(vals) == 0 {
+			return nil
+		}
+		var out []*ssa.Function
+		for _, a := range vals {
+			fs := funcValues(p, a, depth+1)
+			if len(fs) == 0 {
+				return nil
+			}
+			out = append(out, fs...)
+		}
+		return out
+	case *ssa.FreeVar:
+		bs := closureBindings(x)
+		if len(bs) == 0 {
+			return nil
+		}
+		var out []*ssa.Function
+		for _, b := range bs {
+			var fs []*ssa.Function
+			if al, ok := b.(*ssa.Alloc); ok {
+				fs = cellFuncValues(p, al, depth+1)
+			} else {
+				fs = funcValues(p, b, depth+1)
+			}
+			if len(fs) == 0 {
+				return nil
+			}
+			out = append(out, fs...)
+		}
+		return out
+	case *ssa.UnOp:
+		if al, ok := x.X.(*ssa.Alloc); ok && x.Op == token.MUL {
+			return cellFuncValues(p, al, depth+1)
+		}
+		return nil
 	case *ssa.Call:
 		g := x.Common().StaticCallee()
 		if g == nil || !p.InRepo(g) || g.Signature.Results().Len() != 1 {
@@ -167,4 +224,31 @@ func funcValues(p *an.Prog, v ssa.Value, depth int) []*ssa.Function {
 		return out
 	}
 	return nil
+}
+
+// cellFuncValues: the functions a local variable can hold — every value stored into it must resolve.
+func cellFuncValues(p *an.Prog, al *ssa.Alloc, depth int) []*ssa.Function {
+	var out []*ssa.Function
+	n := 0
+	for _, r := range *al.Referrers() {
+		switch y := r.(type) {
+		case *ssa.Store:
+			if y.Addr != ssa.Value(al) {
+				return nil // the variable's address is handed on
+			}
+			n++
+			fs := funcValues(p, y.Val, depth+1)
+			if len(fs) == 0 {
+				return nil
+			}
+			out = append(out, fs...)
+		case *ssa.UnOp, *ssa.DebugRef:
+		default:
+			return nil
+		}
+	}
+	if n == 0 {
+		return nil
+	}
+	return out
 }
